@@ -49,12 +49,14 @@ def ofLEInt (bs : Bytes) : Int :=
 
 /-! ### `struct` -/
 
+/-- ranges of the `struct` / `array` item codes: facts about CPython (native sizes on x86-64), NOT the
+    library's `constants.py` — a change of `INT32_T_MAX` does not change what `struct.pack("i", …)` accepts -/
 def Field.lo : Field → Int
-  | .i32 => Gen.int32Min | .i64 => Gen.int64Min | _ => 0
+  | .i32 => -2147483648 | .i64 => -9223372036854775808 | _ => 0
 
 def Field.hi : Field → Int
-  | .u8 => 255 | .u32 => Gen.uint32Max | .i32 => Gen.int32Max
-  | .u64 => Gen.uint64Max | .i64 => Gen.int64Max | .f32 => Gen.uint32Max
+  | .u8 => 255 | .u32 => 4294967295 | .i32 => 2147483647
+  | .u64 => 18446744073709551615 | .i64 => 9223372036854775807 | .f32 => 4294967295
 
 /-- native mode aligns every field to its size; standard modes do not pad -/
 def Layout.padBefore (l : Layout) (off : Nat) (f : Field) : Nat :=
